@@ -130,6 +130,7 @@ Proof. destruct a, b; simpl; congruence. Qed.
 
 Section Loaders.
   Variable ms : modes.
+  Variable sh : lshape.
   Variable fs : fstore.
 
   Definition shared (c : cell) : Prop := mode_of ms c = DSharedList.
@@ -149,12 +150,20 @@ Section Loaders.
   Proof. intro H. unfold out_rel; simpl. repeat split; auto. Qed.
 
   Lemma out_rel_trans w1 w2 w1' w2' o1 o2 :
-    wagree w1' w2' ->
     (forall c, mode_of ms c = DNone -> w1' c = w1 c /\ w2' c = w2 c) ->
     out_rel w1' w2' o1 o2 -> out_rel w1 w2 o1 o2.
   Proof.
-    intros _ Hf (A & B & Cc & D). unfold out_rel. repeat split; auto;
+    intros Hf (A & B & Cc & D). unfold out_rel. repeat split; auto;
       destruct (D c H) as [D1 D2]; destruct (Hf c H) as [F1 F2]; congruence.
+  Qed.
+
+  (* continue after an intermediate result (a1,l,x1)/(a2,l,x2) that is itself related *)
+  Lemma out_rel_step w1 w2 (o1 o2 : out) (k : res -> list string -> lworld -> out) :
+    out_rel w1 w2 o1 o2 ->
+    (forall a l x1 x2, wagree x1 x2 -> out_rel x1 x2 (k a l x1) (k a l x2)) ->
+    out_rel w1 w2 (k (fst (fst o1)) (snd (fst o1)) (snd o1)) (k (fst (fst o2)) (snd (fst o2)) (snd o2)).
+  Proof.
+    intros (A & B & Cc & D) K. rewrite A, B. eapply out_rel_trans; [exact D|]. apply K. exact Cc.
   Qed.
 
   Lemma aget_agree r loc w1 w2 : ref_ok r -> wagree w1 w2 -> aget r loc w1 = aget r loc w2.
@@ -162,10 +171,9 @@ Section Loaders.
 
   Lemma aapp_rel r i loc w1 w2 :
     ref_ok r -> wagree w1 w2 ->
-    fst (aapp r i loc w1) = fst (aapp r i loc w2) /\ wagree (snd (aapp r i loc w1)) (snd (aapp r i loc w2)) /\
-    (forall c, mode_of ms c = DNone -> snd (aapp r i loc w1) c = w1 c /\ snd (aapp r i loc w2) c = w2 c).
+    out_rel w1 w2 (ROk [], fst (aapp r i loc w1), snd (aapp r i loc w1)) (ROk [], fst (aapp r i loc w2), snd (aapp r i loc w2)).
   Proof.
-    intros Hr Hw. destruct r as [|c0]; simpl; repeat split; auto.
+    intros Hr Hw. unfold out_rel. destruct r as [|c0]; simpl; repeat split; auto.
     - intros c Hc. unfold wupd. destruct (cell_eqb c0 c); auto. rewrite (Hw c0 Hr). reflexivity.
     - unfold wupd. destruct (cell_eqb c0 c) eqn:E; auto. apply cell_eqb_eq in E. subst.
       simpl in Hr. unfold shared in Hr. congruence.
@@ -174,30 +182,35 @@ Section Loaders.
   Qed.
 
   Lemma good_load_h5 rd : good rd ->
-    forall p loc w1 w2, wagree w1 w2 ->
-      out_rel w1 w2 (load_h5_with rd ms fs p loc w1) (load_h5_with rd ms fs p loc w2).
+    forall p r loc w1 w2, ref_ok r -> wagree w1 w2 ->
+      out_rel w1 w2 (load_h5_with rd ms sh fs p r loc w1) (load_h5_with rd ms sh fs p r loc w2).
   Proof.
-    intros G p loc w1 w2 Hw. unfold load_h5_with.
+    intros G p r loc w1 w2 Hr Hw. unfold load_h5_with.
     destruct (lookup_file fs p) as [f|]; [|apply out_rel_same; auto].
     destruct (f_kind f); [apply out_rel_same; auto|].
-    destruct (m_string ms) eqn:M.
-    - pose proof (G (SEmb p) true ALocal [] w1 w2 I Hw) as (A & B & Cc & D).
-      destruct (rd (SEmb p) true ALocal [] w1) as [[a1 l1] x1].
-      destruct (rd (SEmb p) true ALocal [] w2) as [[a2 l2] x2]. simpl in *. subst.
+    destruct (sh_h5_threads sh).
+    - pose proof (G (SEmb p) true r loc w1 w2 Hr Hw) as (A & B & Cc & D).
+      destruct (rd (SEmb p) true r loc w1) as [[a1 l1] x1].
+      destruct (rd (SEmb p) true r loc w2) as [[a2 l2] x2]. simpl in *. subst.
       destruct a2; unfold out_rel; simpl; repeat split; auto; apply D; auto.
-    - assert (S : ref_ok (AWorld CellString)) by exact M.
-      pose proof (G (SEmb p) true (AWorld CellString) loc w1 w2 S Hw) as (A & B & Cc & D).
-      destruct (rd (SEmb p) true (AWorld CellString) loc w1) as [[a1 l1] x1].
-      destruct (rd (SEmb p) true (AWorld CellString) loc w2) as [[a2 l2] x2]. simpl in *. subst.
-      destruct a2; unfold out_rel; simpl; repeat split; auto; apply D; auto.
+    - destruct (m_string ms) eqn:M.
+      + pose proof (G (SEmb p) true ALocal [] w1 w2 I Hw) as (A & B & Cc & D).
+        destruct (rd (SEmb p) true ALocal [] w1) as [[a1 l1] x1].
+        destruct (rd (SEmb p) true ALocal [] w2) as [[a2 l2] x2]. simpl in *. subst.
+        destruct a2; unfold out_rel; simpl; repeat split; auto; apply D; auto.
+      + assert (S : ref_ok (AWorld CellString)) by exact M.
+        pose proof (G (SEmb p) true (AWorld CellString) loc w1 w2 S Hw) as (A & B & Cc & D).
+        destruct (rd (SEmb p) true (AWorld CellString) loc w1) as [[a1 l1] x1].
+        destruct (rd (SEmb p) true (AWorld CellString) loc w2) as [[a2 l2] x2]. simpl in *. subst.
+        destruct a2; unfold out_rel; simpl; repeat split; auto; apply D; auto.
   Qed.
 
   Lemma good_load_top rd : good rd ->
-    forall src loc w1 w2, wagree w1 w2 ->
-      fst (load_top rd ms fs src loc w1) = fst (load_top rd ms fs src loc w2) /\
-      out_rel w1 w2 (snd (load_top rd ms fs src loc w1)) (snd (load_top rd ms fs src loc w2)).
+    forall src r loc w1 w2, ref_ok r -> wagree w1 w2 ->
+      fst (load_top rd ms sh fs src r loc w1) = fst (load_top rd ms sh fs src r loc w2) /\
+      out_rel w1 w2 (snd (load_top rd ms sh fs src r loc w1)) (snd (load_top rd ms sh fs src r loc w2)).
   Proof.
-    intros G src loc w1 w2 Hw.
+    intros G src r loc w1 w2 Hr Hw.
     assert (OF : forall name k,
       fst (of_file fs name k loc w1) = fst (of_file fs name k loc w2) /\
       out_rel w1 w2 (snd (of_file fs name k loc w1)) (snd (of_file fs name k loc w2))).
@@ -205,52 +218,87 @@ Section Loaders.
         split; auto; apply out_rel_same; auto. }
     unfold load_top. destruct src as [p|name|p]; try apply OF.
     destruct (ends_with ".h5" p || ends_with ".hdf5" p); [|apply OF].
-    pose proof (good_load_h5 rd G p loc w1 w2 Hw) as (A & B & Cc & D).
-    destruct (load_h5_with rd ms fs p loc w1) as [[a1 l1] x1].
-    destruct (load_h5_with rd ms fs p loc w2) as [[a2 l2] x2]. simpl in *. subst.
+    pose proof (good_load_h5 rd G p r loc w1 w2 Hr Hw) as (A & B & Cc & D).
+    destruct (load_h5_with rd ms sh fs p r loc w1) as [[a1 l1] x1].
+    destruct (load_h5_with rd ms sh fs p r loc w2) as [[a2 l2] x2]. simpl in *. subst.
     destruct a2; simpl; split; auto; unfold out_rel; simpl; repeat split; auto; apply D; auto.
+  Qed.
+
+  Lemma good_follow rd : good rd ->
+    forall r i h5 loc w1 w2, ref_ok r -> wagree w1 w2 ->
+      out_rel w1 w2 (follow rd ms sh fs r i h5 loc w1) (follow rd ms sh fs r i h5 loc w2).
+  Proof.
+    intros G r i h5 loc w1 w2 Hr Hw. unfold follow. destruct h5.
+    - apply good_load_h5; auto.
+    - destruct (lookup_file fs i); [apply G; auto|apply out_rel_same; auto].
   Qed.
 
   Lemma good_inc_loop rd : good rd ->
     forall r, ref_ok r ->
     forall incs doc loc w1 w2, wagree w1 w2 ->
-      out_rel w1 w2 (inc_loop rd ms fs r incs doc loc w1) (inc_loop rd ms fs r incs doc loc w2).
+      out_rel w1 w2 (inc_loop rd ms sh fs r incs doc loc w1) (inc_loop rd ms sh fs r incs doc loc w2).
   Proof.
     intros G r Hr. induction incs as [|i rest IH]; intros doc loc w1 w2 Hw; simpl.
     - apply out_rel_same; auto.
     - rewrite (aget_agree r loc w1 w2 Hr Hw).
       destruct (mem i (aget r loc w2)); [apply IH; auto|].
-      destruct (ends_with ".nml" i || ends_with ".xml" i).
-      + destruct (lookup_file fs i); [|apply out_rel_same; auto].
-        pose proof (G (SPath i) true r loc w1 w2 Hr Hw) as (A & B & Cc & D).
-        destruct (rd (SPath i) true r loc w1) as [[a1 l1] x1].
-        destruct (rd (SPath i) true r loc w2) as [[a2 l2] x2]. simpl in *. subst.
+      set (xml := ends_with ".nml" i || ends_with ".xml" i).
+      destruct (xml || ends_with ".nml.h5" i); [|apply out_rel_same; auto].
+      destruct (sh_append_first sh).
+      + (* append, then follow, then continue *)
+        pose proof (aapp_rel r i loc w1 w2 Hr Hw) as AP.
+        apply (out_rel_step w1 w2 _ _
+                 (fun _ l x =>
+                    match follow rd ms sh fs r i (negb xml) l x with
+                    | (ROk sub, loc2, w2') => inc_loop rd ms sh fs r rest (add_all sub doc) loc2 w2'
+                    | (e, loc2, w2') => (e, loc2, w2')
+                    end) AP).
+        intros _ l x1 x2 Hx.
+        pose proof (good_follow rd G r i (negb xml) l x1 x2 Hr Hx) as (A & B & Cc & D).
+        destruct (follow rd ms sh fs r i (negb xml) l x1) as [[a1 l1] y1].
+        destruct (follow rd ms sh fs r i (negb xml) l x2) as [[a2 l2] y2]. simpl in *. subst.
         destruct a2; try (unfold out_rel; simpl; repeat split; auto; apply D; auto).
-        destruct (aapp_rel r i l2 x1 x2 Hr Cc) as (E1 & E2 & E3).
-        rewrite E1. eapply out_rel_trans; [exact E2| |apply IH; exact E2].
-        intros c Hc. destruct (E3 c Hc), (D c Hc). split; congruence.
-      + destruct (ends_with ".nml.h5" i); [|apply out_rel_same; auto].
-        pose proof (good_load_h5 rd G i loc w1 w2 Hw) as (A & B & Cc & D).
-        destruct (load_h5_with rd ms fs i loc w1) as [[a1 l1] x1].
-        destruct (load_h5_with rd ms fs i loc w2) as [[a2 l2] x2]. simpl in *. subst.
+        eapply out_rel_trans; [exact D|]. apply IH. exact Cc.
+      + (* follow, then append, then continue *)
+        pose proof (good_follow rd G r i (negb xml) loc w1 w2 Hr Hw) as (A & B & Cc & D).
+        destruct (follow rd ms sh fs r i (negb xml) loc w1) as [[a1 l1] y1].
+        destruct (follow rd ms sh fs r i (negb xml) loc w2) as [[a2 l2] y2]. simpl in *. subst.
         destruct a2; try (unfold out_rel; simpl; repeat split; auto; apply D; auto).
-        destruct (aapp_rel r i l2 x1 x2 Hr Cc) as (E1 & E2 & E3).
-        rewrite E1. eapply out_rel_trans; [exact E2| |apply IH; exact E2].
-        intros c Hc. destruct (E3 c Hc), (D c Hc). split; congruence.
+        eapply out_rel_trans; [exact D|].
+        pose proof (aapp_rel r i l2 y1 y2 Hr Cc) as AP.
+        apply (out_rel_step y1 y2 _ _ (fun _ l x => inc_loop rd ms sh fs r rest (add_all items doc) l x) AP).
+        intros _ l x1 x2 Hx. apply IH. exact Hx.
   Qed.
 
-  Lemma good_read2 : forall fuel, good (read2 fuel ms fs).
+  Lemma good_read2 : forall fuel, good (read2 fuel ms sh fs).
   Proof.
     induction fuel as [|n IH]; intros src incl r loc w1 w2 Hr Hw; simpl.
     - apply out_rel_same; auto.
-    - destruct (good_load_top _ IH src loc w1 w2 Hw) as (A & B).
-      destruct (load_top (read2 n ms fs) ms fs src loc w1) as [o1 [[a1 l1] x1]].
-      destruct (load_top (read2 n ms fs) ms fs src loc w2) as [o2 [[a2 l2] x2]]. simpl in A. subst o2.
-      destruct o1 as [[incs items]|]; [|exact B].
-      destruct B as (B1 & B2 & B3 & B4). simpl in *. subst.
-      destruct incl.
-      + eapply out_rel_trans; [exact B3|exact B4|]. apply good_inc_loop; auto.
-      + unfold out_rel; simpl; repeat split; auto; apply B4; auto.
+    - assert (M : (match src with SPath p => sh_mark_entry sh && negb (mem p (aget r loc w1)) | _ => false end)
+                  = (match src with SPath p => sh_mark_entry sh && negb (mem p (aget r loc w2)) | _ => false end)).
+      { destruct src; auto. rewrite (aget_agree r loc w1 w2 Hr Hw). reflexivity. }
+      rewrite M. clear M.
+      set (mark := match src with SPath p => sh_mark_entry sh && negb (mem p (aget r loc w2)) | _ => false end).
+      set (p0 := match src with SPath p => p | _ => "" end).
+      set (K := fun (_ : res) (l : list string) (x : lworld) =>
+                  match load_top (read2 n ms sh fs) ms sh fs src r l x with
+                  | (None, o) => o
+                  | (Some (incs, items), (_, loc1, x1)) =>
+                    if incl then inc_loop (read2 n ms sh fs) ms sh fs r incs items loc1 x1 else (ROk items, loc1, x1)
+                  end).
+      assert (KK : forall a l x1 x2, wagree x1 x2 -> out_rel x1 x2 (K a l x1) (K a l x2)).
+      { intros a l x1 x2 Hx. unfold K.
+        destruct (good_load_top _ IH src r l x1 x2 Hr Hx) as (A & B).
+        destruct (load_top (read2 n ms sh fs) ms sh fs src r l x1) as [o1 [[a1 l1] y1]].
+        destruct (load_top (read2 n ms sh fs) ms sh fs src r l x2) as [o2 [[a2 l2] y2]]. simpl in A. subst o2.
+        destruct o1 as [[incs items]|]; [|exact B].
+        destruct B as (B1 & B2 & B3 & B4). simpl in *. subst.
+        destruct incl.
+        - eapply out_rel_trans; [exact B4|]. apply good_inc_loop; auto.
+        - unfold out_rel; simpl; repeat split; auto; apply B4; auto. }
+      destruct mark.
+      + exact (out_rel_step w1 w2 _ _ K (aapp_rel r p0 loc w1 w2 Hr Hw) KK).
+      + exact (KK RErr loc w1 w2 Hw).
   Qed.
 
   Lemma start_ref_ok c ai : ref_ok (fst (start_ref (mode_of ms c) c ai)).
@@ -261,10 +309,10 @@ Section Loaders.
 
   (* the entry points: result and final world *)
   Lemma exec_call_rel fuel x w1 w2 : wagree w1 w2 ->
-    fst (exec_call fuel ms fs x w1) = fst (exec_call fuel ms fs x w2) /\
-    wagree (snd (exec_call fuel ms fs x w1)) (snd (exec_call fuel ms fs x w2)) /\
+    fst (exec_call fuel ms sh fs x w1) = fst (exec_call fuel ms sh fs x w2) /\
+    wagree (snd (exec_call fuel ms sh fs x w1)) (snd (exec_call fuel ms sh fs x w2)) /\
     (forall c, mode_of ms c = DNone ->
-       snd (exec_call fuel ms fs x w1) c = w1 c /\ snd (exec_call fuel ms fs x w2) c = w2 c).
+       snd (exec_call fuel ms sh fs x w1) c = w1 c /\ snd (exec_call fuel ms sh fs x w2) c = w2 c).
   Proof.
     intro Hw.
     destruct x as [p incl ai|name incl ai|src incl ai|p|p]; simpl.
@@ -272,21 +320,21 @@ Section Loaders.
       destruct (start_ref (m_file ms) CellFile ai) as [r loc]. simpl in Hr.
       destruct (lookup_file fs p); [|simpl; repeat split; auto].
       pose proof (good_read2 fuel (SPath p) incl r loc w1 w2 Hr Hw) as (A & B & Cc & D).
-      destruct (read2 fuel ms fs (SPath p) incl r loc w1) as [[a1 l1] x1].
-      destruct (read2 fuel ms fs (SPath p) incl r loc w2) as [[a2 l2] x2]. simpl in *. repeat split; auto; apply D; auto.
+      destruct (read2 fuel ms sh fs (SPath p) incl r loc w1) as [[a1 l1] x1].
+      destruct (read2 fuel ms sh fs (SPath p) incl r loc w2) as [[a2 l2] x2]. simpl in *. repeat split; auto; apply D; auto.
     - pose proof (start_ref_ok CellString ai) as Hr. change (mode_of ms CellString) with (m_string ms) in Hr.
       destruct (start_ref (m_string ms) CellString ai) as [r loc]. simpl in Hr.
       pose proof (good_read2 fuel (SStr name) incl r loc w1 w2 Hr Hw) as (A & B & Cc & D).
-      destruct (read2 fuel ms fs (SStr name) incl r loc w1) as [[a1 l1] x1].
-      destruct (read2 fuel ms fs (SStr name) incl r loc w2) as [[a2 l2] x2]. simpl in *. repeat split; auto; apply D; auto.
+      destruct (read2 fuel ms sh fs (SStr name) incl r loc w1) as [[a1 l1] x1].
+      destruct (read2 fuel ms sh fs (SStr name) incl r loc w2) as [[a2 l2] x2]. simpl in *. repeat split; auto; apply D; auto.
     - pose proof (start_ref_ok CellInner ai) as Hr. change (mode_of ms CellInner) with (m_inner ms) in Hr.
       destruct (start_ref (m_inner ms) CellInner ai) as [r loc]. simpl in Hr.
       pose proof (good_read2 fuel src incl r loc w1 w2 Hr Hw) as (A & B & Cc & D).
-      destruct (read2 fuel ms fs src incl r loc w1) as [[a1 l1] x1].
-      destruct (read2 fuel ms fs src incl r loc w2) as [[a2 l2] x2]. simpl in *. repeat split; auto; apply D; auto.
-    - pose proof (good_load_h5 _ (good_read2 fuel) p [] w1 w2 Hw) as (A & B & Cc & D).
-      destruct (load_h5_with (read2 fuel ms fs) ms fs p [] w1) as [[a1 l1] x1].
-      destruct (load_h5_with (read2 fuel ms fs) ms fs p [] w2) as [[a2 l2] x2]. simpl in *. repeat split; auto; apply D; auto.
+      destruct (read2 fuel ms sh fs src incl r loc w1) as [[a1 l1] x1].
+      destruct (read2 fuel ms sh fs src incl r loc w2) as [[a2 l2] x2]. simpl in *. repeat split; auto; apply D; auto.
+    - pose proof (good_load_h5 _ (good_read2 fuel) p ALocal [] w1 w2 I Hw) as (A & B & Cc & D).
+      destruct (load_h5_with (read2 fuel ms sh fs) ms sh fs p ALocal [] w1) as [[a1 l1] x1].
+      destruct (load_h5_with (read2 fuel ms sh fs) ms sh fs p ALocal [] w2) as [[a2 l2] x2]. simpl in *. repeat split; auto; apply D; auto.
     - destruct (lookup_file fs p) as [f|]; [destruct (f_kind f)|]; simpl; repeat split; auto.
   Qed.
 
@@ -301,16 +349,16 @@ Section Loaders.
   Proof. unfold agree, wagree. split; intros H c Hc; apply H; apply in_shared_cells; auto. Qed.
 
   (* the tie of B2 and B3: with the footprints "the shared default objects" the concrete loader semantics
-     satisfies the two footprint conditions, for every layout of the defaults *)
+     satisfies the two footprint conditions, for every layout of the defaults and every shape of the loop *)
   Theorem loaders_reads_only fuel :
-    reads_only cell (list string) lcall res (exec_call fuel ms fs) (fun _ => shared_cells ms) (fun _ => shared_cells ms).
+    reads_only cell (list string) lcall res (exec_call fuel ms sh fs) (fun _ => shared_cells ms) (fun _ => shared_cells ms).
   Proof.
     intros x w1 w2 H. apply agree_wagree in H. destruct (exec_call_rel fuel x w1 w2 H) as (A & B & _).
     split; auto. apply agree_wagree. exact B.
   Qed.
 
   Theorem loaders_writes_only fuel :
-    writes_only cell (list string) lcall res (exec_call fuel ms fs) (fun _ => shared_cells ms).
+    writes_only cell (list string) lcall res (exec_call fuel ms sh fs) (fun _ => shared_cells ms).
   Proof.
     intros x w c Hc.
     assert (M : mode_of ms c = DNone).
@@ -323,10 +371,10 @@ Section Loaders.
   Theorem loads_history_independent :
     shared_cells ms = [] ->
     forall fuel hist x w0,
-      fst (exec_call fuel ms fs x (run_hist fuel ms fs hist w0)) = fst (exec_call fuel ms fs x w0).
+      fst (exec_call fuel ms sh fs x (run_hist fuel ms sh fs hist w0)) = fst (exec_call fuel ms sh fs x w0).
   Proof.
     intros Hs fuel hist x w0. unfold run_hist.
-    apply (history_independent cell (list string) lcall res (exec_call fuel ms fs)
+    apply (history_independent cell (list string) lcall res (exec_call fuel ms sh fs)
              (fun _ => shared_cells ms) (fun _ => shared_cells ms)).
     - apply loaders_reads_only.
     - apply loaders_writes_only.
@@ -336,11 +384,11 @@ Section Loaders.
   Theorem loads_results_independent :
     shared_cells ms = [] ->
     forall fuel hist w0,
-      results cell (list string) lcall res (exec_call fuel ms fs) hist w0
-      = map (fun x => fst (exec_call fuel ms fs x w0)) hist.
+      results cell (list string) lcall res (exec_call fuel ms sh fs) hist w0
+      = map (fun x => fst (exec_call fuel ms sh fs x w0)) hist.
   Proof.
     intros Hs fuel hist w0.
-    apply (results_independent cell (list string) lcall res (exec_call fuel ms fs)
+    apply (results_independent cell (list string) lcall res (exec_call fuel ms sh fs)
              (fun _ => shared_cells ms) (fun _ => shared_cells ms)).
     - apply loaders_reads_only.
     - apply loaders_writes_only.
@@ -349,15 +397,16 @@ Section Loaders.
 End Loaders.
 
 Theorem C07_history_none :
-  forall fuel fs hist x w0,
-    fst (exec_call fuel none_modes fs x (run_hist fuel none_modes fs hist w0)) = fst (exec_call fuel none_modes fs x w0).
+  forall sh fuel fs hist x w0,
+    fst (exec_call fuel none_modes sh fs x (run_hist fuel none_modes sh fs hist w0)) = fst (exec_call fuel none_modes sh fs x w0).
 Proof. intros. apply loads_history_independent. reflexivity. Qed.
 
 (* stated over a generated table *)
 Theorem loads_history_of_table t :
   mutated_defaults t = [] ->
-  forall fuel fs hist x w0,
-    fst (exec_call fuel (modes_of t) fs x (run_hist fuel (modes_of t) fs hist w0)) = fst (exec_call fuel (modes_of t) fs x w0).
+  forall sh fuel fs hist x w0,
+    fst (exec_call fuel (modes_of t) sh fs x (run_hist fuel (modes_of t) sh fs hist w0))
+    = fst (exec_call fuel (modes_of t) sh fs x w0).
 Proof. intro H. rewrite (modes_of_ok t H). apply C07_history_none. Qed.
 
 (* the shared default of read_neuroml2_string is observable: the concrete witness seen on the real code *)
@@ -367,12 +416,15 @@ Definition wit_fs : fstore :=
 Definition wit_call : lcall := CString "/d/main.nml" true None.
 
 Theorem C07_history_shared_refuted :
-  forall mf mi, let ms := {| m_file := mf; m_string := DSharedList; m_inner := mi |} in
+  forall mf mi me af ht,
+  let ms := {| m_file := mf; m_string := DSharedList; m_inner := mi |} in
+  let sh := {| sh_mark_entry := me; sh_append_first := af; sh_h5_threads := ht |} in
   exists fs hist x,
-    fst (exec_call 10 ms fs x (run_hist 10 ms fs hist w_empty)) <> fst (exec_call 10 ms fs x w_empty)
-    /\ fst (exec_call 10 ms fs x w_empty) <> RFuel.
+    fst (exec_call 10 ms sh fs x (run_hist 10 ms sh fs hist w_empty)) <> fst (exec_call 10 ms sh fs x w_empty)
+    /\ fst (exec_call 10 ms sh fs x w_empty) <> RFuel.
 Proof.
-  intros mf mi ms. exists wit_fs, [wit_call], wit_call. destruct mf, mi; vm_compute; split; discriminate.
+  intros mf mi me af ht ms sh. exists wit_fs, [wit_call], wit_call.
+  destruct mf, mi, me, af, ht; vm_compute; split; discriminate.
 Qed.
 
 (* the same through the HDF5 loader: the embedded XML is read with the shared default *)
@@ -383,12 +435,12 @@ Definition wit_fs_h5 : fstore :=
 
 Theorem C07_history_shared_refuted_h5 :
   let ms := {| m_file := DNone; m_string := DSharedList; m_inner := DSharedList |} in
-  fst (exec_call 10 ms wit_fs_h5 (CLoadH5 "/d/net.nml.h5") (run_hist 10 ms wit_fs_h5 [CLoadH5 "/d/net.nml.h5"] w_empty))
-  <> fst (exec_call 10 ms wit_fs_h5 (CLoadH5 "/d/net.nml.h5") w_empty).
+  fst (exec_call 10 ms shape0 wit_fs_h5 (CLoadH5 "/d/net.nml.h5") (run_hist 10 ms shape0 wit_fs_h5 [CLoadH5 "/d/net.nml.h5"] w_empty))
+  <> fst (exec_call 10 ms shape0 wit_fs_h5 (CLoadH5 "/d/net.nml.h5") w_empty).
 Proof. vm_compute. discriminate. Qed.
 
 Example loads_example :
-  fst (exec_call 10 none_modes wit_fs wit_call (run_hist 10 none_modes wit_fs [wit_call; wit_call] w_empty))
+  fst (exec_call 10 none_modes shape0 wit_fs wit_call (run_hist 10 none_modes shape0 wit_fs [wit_call; wit_call] w_empty))
   = ROk ["pulse_generators:pg0"; "iaf_cells:iaf0"].
 Proof. vm_compute. reflexivity. Qed.
 
@@ -478,19 +530,20 @@ Proof. intro H. unfold to_rec. rewrite !H. reflexivity. Qed.
 Lemma to_of_rec v : to_rec (of_rec v) = v.
 Proof. destruct v; reflexivity. Qed.
 
-Lemma h_op_ext o : hext bfield fval (h_op o).
+Lemma h_op_ext eg o : hext bfield fval (h_op eg o).
 Proof. intros v1 v2 E f. unfold h_op. rewrite (to_rec_ext v1 v2 E). reflexivity. Qed.
 
-Lemma lift_sched_ext sched : Forall (hext bfield fval) (map snd (lift_sched sched)).
+Lemma lift_sched_ext eg sched : Forall (hext bfield fval) (map snd (lift_sched eg sched)).
 Proof. unfold lift_sched. induction sched as [|[w o] r IH]; simpl; constructor; auto using h_op_ext. Qed.
 
-Lemma proj_lift w sched : proj bfield fval w (lift_sched sched) = map h_op (ops_of w sched).
+Lemma proj_lift eg w sched : proj bfield fval w (lift_sched eg sched) = map (h_op eg) (ops_of w sched).
 Proof.
   unfold State.proj, lift_sched, ops_of. induction sched as [|[w' o] r IH]; simpl; auto.
   destruct (who_eqb w' w); simpl; rewrite IH; reflexivity.
 Qed.
 
-Lemma run_solo_h_op ops : forall s, to_rec (run_solo bfield fval (map h_op ops) s) = solo_view ops (to_rec s).
+Lemma run_solo_h_op eg ops :
+  forall s, to_rec (run_solo bfield fval (map (h_op eg) ops) s) = solo_view eg ops (to_rec s).
 Proof.
   unfold solo_view. induction ops as [|o t IH]; intro s; simpl; auto.
   rewrite IH. unfold h_op. rewrite to_of_rec. reflexivity.
@@ -507,27 +560,27 @@ Qed.
 
 (* with the seven dicts per instance, ANY interleaving of the handler calls of two builders leaves each
    builder with exactly the state (document, dicts, raised flags) it reaches when it runs alone *)
-Theorem builder_interleave p :
+Theorem builder_interleave eg p :
   (forall d, p d = true) ->
-  forall sched s w, bview_of p w (brun p sched s) = solo_view (ops_of w sched) (bview_of p w s).
+  forall sched s w, bview_of p w (brun eg p sched s) = solo_view eg (ops_of w sched) (bview_of p w s).
 Proof.
   intros H sched s w. unfold bview_of, brun.
   rewrite <- run_solo_h_op. apply to_rec_ext. intro f.
-  rewrite (interleave_view bfield fval (mk_pl p) (mk_pl_all p H) (lift_sched sched) (lift_sched_ext sched) w s f).
+  rewrite (interleave_view bfield fval (mk_pl p) (mk_pl_all p H) (lift_sched eg sched) (lift_sched_ext eg sched) w s f).
   rewrite proj_lift. reflexivity.
 Qed.
 
-Theorem builder_interleave_dump p :
+Theorem builder_interleave_dump eg p :
   (forall d, p d = true) ->
-  forall sched w, bdump p w (brun p sched bsys0) = solo_dump (ops_of w sched).
+  forall sched w, bdump p w (brun eg p sched bsys0) = solo_dump eg (ops_of w sched).
 Proof.
-  intros H sched w. unfold bdump, solo_dump. rewrite (builder_interleave p H). rewrite bview_of_bsys0. reflexivity.
+  intros H sched w. unfold bdump, solo_dump. rewrite (builder_interleave eg p H). rewrite bview_of_bsys0. reflexivity.
 Qed.
 
 Theorem builder_interleave_of_table t :
   all_own t = true ->
-  forall sched w, bdump (placement_of t) w (brun (placement_of t) sched bsys0) = solo_dump (ops_of w sched).
-Proof. intro H. apply builder_interleave_dump. apply placement_of_ok. exact H. Qed.
+  forall eg sched w, bdump (placement_of t) w (brun eg (placement_of t) sched bsys0) = solo_dump eg (ops_of w sched).
+Proof. intros H eg. apply builder_interleave_dump. apply placement_of_ok. exact H. Qed.
 
 (* the class-level layout is observable: builder A's location lands in builder B's population *)
 Definition wit_sched : list (who * op) :=
@@ -539,14 +592,14 @@ Definition mkp (a b c d e f g : bool) : dfield -> bool := fun x =>
   match x with DPops => a | DProjs => b | DSyns => c | DTypes => d | DSynsPre => e | DILists => f | DWD => g end.
 
 Theorem builder_interleave_refuted :
-  forall b c d e f g, let p := mkp false b c d e f g in
-  exists sched w, bdump p w (brun p sched bsys0) <> solo_dump (ops_of w sched).
+  forall eg b c d e f g, let p := mkp false b c d e f g in
+  exists sched w, bdump p w (brun eg p sched bsys0) <> solo_dump eg (ops_of w sched).
 Proof.
-  intros b c d e f g p. exists wit_sched, WA. subst p.
-  destruct b, c, d, e, f, g; vm_compute; discriminate.
+  intros eg b c d e f g p. exists wit_sched, WA. subst p.
+  destruct eg, b, c, d, e, f, g; vm_compute; discriminate.
 Qed.
 
 Example builder_example :
-  bdump (fun _ => true) WB (brun (fun _ => true) wit_sched bsys0)
+  bdump (fun _ => true) WB (brun false (fun _ => true) wit_sched bsys0)
   = ([("doc", ["docB"], []); ("network", ["netB"], []); ("population", ["p"; "cellB"; ""], [1%Z])], [false; false; false]).
 Proof. vm_compute. reflexivity. Qed.
